@@ -173,9 +173,14 @@ def run(chk):
 
     FS = FullStackCaller(repo)
     for name, c0, c1, sps, eps, caller in [(*cs, P) for cs in cases] + [(cs[0] + "@full-stack", *cs[1:], FS) for cs in cases]:
+        sps0, eps0 = (set(sps) if sps is not None else None), (set(eps) if eps is not None else None)
         r = caller.call(FILE, "miter", c0, c1, sps, eps)
         n += 1
         key = f"miter::{name}"
+        if (sps is not None and set(sps) != sps0) or (eps is not None and set(eps) != eps0):
+            chk.ob("C04.D.subsets-and-defaults", key, False, file=FILE, func="miter", line=fi.node.lineno, fact={"problem": "the caller's startpoints / endpoints set was modified", "startpoints": [sorted(sps0 or ()), sorted(sps or ())],
+                                                                                                                     "endpoints": [sorted(eps0 or ()), sorted(eps or ())]}, expect="the argument sets are left as they were (a second call with the same set compares the same endpoints)")
+            sps, eps = sps0, eps0
         if r[0] != "return" or not isinstance(r[1], RefCircuit):
             chk.ob("C04.D.subsets-and-defaults", key, False, file=FILE, func="miter", line=fi.node.lineno, fact={"result": str(r)[:200]})
             continue
